@@ -474,6 +474,19 @@ class SSHChannel(Generic[AnyStr], SSHPacketHandler):
 
         self._send_state = 'closed'
         self._close_send()
+
+        # Data received before the connection closed may still be waiting
+        # here for a paused session to resume reading. Deliver it now
+        # regardless of the pause, as it would otherwise be silently lost.
+        if self._recv_paused != 'starting':
+            try:
+                while self._recv_buf:
+                    data, datatype = self._recv_buf.pop(0)
+                    self._recv_buf_len -= len(data)
+                    self._deliver_data(data, datatype)
+            except ProtocolError as decode_exc:
+                exc = exc or decode_exc
+
         self._cleanup(exc)
 
     def process_open(self, send_chan: int, send_window: int, send_pktsize: int,
